@@ -1012,7 +1012,10 @@ pub fn gen_flags(t: &mut Tape) -> u32 {
 pub fn nest_guards(inner: &Dag, env: &Dag, depth: u32, ext: u32, flags: u32) -> Option<Dag> {
     let new_model = flags & 0x2000 != 0;
     let guard_cost: u64 = if new_model { 500 } else { 140 };
-    let run_flags = (flags | if ext == 1 { 0x0100 } else { 0 }) & !0x0010; // no depth limit for the pre-runs
+    // the pre-run must see the operator set that is in effect inside the guard: extension 1 enables keccak, and under the
+    // new cost model extensions 0 and 1 are the grandfathered "everything before the hard fork" set (keccak included)
+    let keccak_inside = ext == 1 || (new_model && ext == 0);
+    let run_flags = (flags | if keccak_inside { 0x0100 } else { 0 }) & !0x0010; // no depth limit for the pre-runs
     let mut prog = inner.clone();
     let mut cur_env = env.clone();
     for _ in 0..depth {
